@@ -19,7 +19,7 @@ RULE = ("fault space = truncation points of the writer: frame sizes 2*nc for nc 
         "distinct = distinct (nc, frames, trailing, claim, fs, reader class)")
 ASSUMPTIONS = ["truncation = a prefix of the byte stream the writer would have produced", "at least one complete frame is present",
                "still-acquiring metadata (no fileTimeSecs / fileSizeBytes yet) is only given to OnlineReader, the class meant for it"]
-REQUIRED = {"constructions": 400, "prefix_values_checked": 400, "half_frame_or_more": 100, "beyond_end_reads": 400, "cbin_short": 2, "deferred_opens": 60, "long_off_by_few": 6, "other_sample_widths": 40}
+REQUIRED = {"constructions": 400, "prefix_values_checked": 400, "half_frame_or_more": 100, "beyond_end_reads": 400, "cbin_short": 2, "deferred_opens": 60, "reopens_after_growth": 100, "long_off_by_few": 6, "other_sample_widths": 40}
 CASE_TIMEOUT = 400.0
 NCS = [2, 5, 97, 277, 385]
 FRAMES = [1, 2, 22, 1000]
@@ -148,16 +148,17 @@ def run_case(case):
             a_trail = 0 if rng.random() < 0.5 else int(rng.integers(0, frame))
             b_frames = int(rng.integers(1, 80))
             b_trail = 0 if rng.random() < 0.4 else int(rng.integers(0, frame))
-            rec = G.make(rng, kind=kind, sites=G.draw_sites(rng, kind, nc - 1, "dense"), ns=81, claim_ns=claim_ns, content="random")
+            rec = G.make(rng, kind=kind, sites=G.draw_sites(rng, kind, nc - 1, "dense"), ns=161, claim_ns=claim_ns, content="random")
             by = rec.raw.tobytes()
             b = d / "t.ap.bin"
             b.write_bytes(by[: a_frames * frame + a_trail])
             b.with_suffix(".meta").write_text(rec.meta_text)
             how = str(rng.choice(["open", "with"]))
-            label = (f"deferred open ({how}) nc={nc} claim={claim_ns} at instantiation {a_frames} frames+{a_trail}B, at open {b_frames} frames+{b_trail}B")
+            label = (f"{'OnlineReader' if j % 3 == 2 else 'Reader'} deferred open ({how}) nc={nc} claim={claim_ns} at instantiation {a_frames} frames+{a_trail}B, at open {b_frames} frames+{b_trail}B")
             keyp = "deferred-open:" + ("grown" if (b_frames, b_trail) > (a_frames, a_trail) else "shrunk" if (b_frames, b_trail) < (a_frames, a_trail) else "same")
             try:
-                sr = spikeglx.Reader(b, open=False, sort=False, ignore_warnings=bool(rng.integers(0, 2)))
+                R = spikeglx.OnlineReader if j % 3 == 2 else spikeglx.Reader
+                sr = R(b, open=False, sort=False, ignore_warnings=bool(rng.integers(0, 2)))
                 b.write_bytes(by[: b_frames * frame + b_trail])
                 if how == "open":
                     sr.open()
@@ -170,6 +171,25 @@ def run_case(case):
                 res.exception(keyp + ":open-exception", e, label)
                 continue
             judge(res, sr, rec.raw, rec.s2v, b_frames, label, keyp)
+            # the recording is still in progress: the writer appends (again ending mid-frame or not) and the SAME reader object is opened again -
+            # directly, or after close(); each opening exposes the complete frames present when it runs
+            for step in range(2):
+                c_frames = b_frames + int(rng.integers(1, 40))
+                c_trail = 0 if rng.random() < 0.4 else int(rng.integers(0, frame))
+                with open(b, "ab") as fo:           # appended, as a writer does (the bytes already there are never touched)
+                    fo.write(by[b.stat().st_size: c_frames * frame + c_trail])
+                how2 = ("open-again", "close-then-open")[(j + step) % 2]
+                label2 = f"{label}; then the file grew to {c_frames} frames+{c_trail}B and the reader was re-opened ({how2})"
+                try:
+                    if how2 == "close-then-open":
+                        sr.close()
+                    sr.open()
+                    res.count("reopens_after_growth")
+                except Exception as e:
+                    res.exception(f"reopen:{how2}:open-exception", e, label2)
+                    break
+                judge(res, sr, rec.raw, rec.s2v, c_frames, label2, f"reopen:{how2}")
+                b_frames = c_frames
             sr.close()
             nt += 1
         res.sig = f"deferred-{case['seed']}"
